@@ -2,6 +2,9 @@
 From J1939 Require Import Base CodecGlue Model21 Model22.
 From J1939.gen Require Import Codec Tp21Gen CaGen Tp22Gen.
 From J1939P Require Import CodecProofs Flat Tp21Seg Tp21Resp Tp21Orig TimeoutProofs MpgProofs PoolProofs ConserveProofs.
+From J1939 Require Import SkelDefs FlowDefs.
+From J1939.gen Require Import SkelGen.
+From J1939P Require Import FlowProofs FlowSend22.
 
 (* T10.2: inbound sessions never consume or release the stack's own outbound capacity — for EVERY frame *)
 Theorem C10_inbound_neutral : forall m now can_id data, skel (fnode22 (notify22 m now can_id data)) = skel m.
@@ -98,3 +101,17 @@ Theorem C10_inbound_guarantee : forall m now can_id ext remote err data,
   guar (fun s => skel s = skel m) (listener22 m now can_id ext remote err data).
 Proof. exact inbound_guar_listener. Qed.
 Print Assumptions C10_inbound_guarantee.
+
+(* T10.6 (structural, on skeletons GENERATED from the current source): J1939_22.send_pgn never returns — in particular
+   never refuses — nor raises on a path on which it has taken a session number without storing the session or giving the
+   number back ("send_pgn refuses without side effects"), and an iteration of the FD job pass never removes an originator
+   session without returning its number; for every path, whatever the conditions evaluate to *)
+Theorem C10_checker_sound : forall t, flow_ok t = true -> forall hh, exec t false (Term hh) -> hh = false.
+Proof. exact flow_ok_no_leak. Qed.
+Print Assumptions C10_checker_sound.
+Theorem C10_send_pgn_never_leaks_a_session_number : forall hh, exec flow_send22 false (Term hh) -> hh = false.
+Proof. exact send_pgn22_never_leaks_a_session_number. Qed.
+Print Assumptions C10_send_pgn_never_leaks_a_session_number.
+Theorem C10_job_pass_returns_every_removed_session : forall hh, exec flow_job22 false (Term hh) -> hh = false.
+Proof. exact job_pass22_returns_every_removed_session. Qed.
+Print Assumptions C10_job_pass_returns_every_removed_session.
